@@ -75,8 +75,8 @@ std::vector<std::string> TaprootCommitmentEnv::Description() {
         auto node_begin = m_control.data() + TAPROOT_CONTROL_BASE_SIZE + TAPROOT_CONTROL_NODE_SIZE * i;
         rv.push_back(strprintf("Branch: %s", HexStr(Span<const unsigned char>(node_begin, TAPROOT_CONTROL_NODE_SIZE)).c_str()));
     }
-    rv.push_back(strprintf("Tweak: %s", m_p.ToString().c_str()));
-    rv.push_back(strprintf("CheckTapTweak"));
+    // one line per Iterate() step: path_len branch steps, then the single tweak check
+    rv.push_back(strprintf("CheckTapTweak: %s", m_p.ToString().c_str()));
     return rv;
 }
 
